@@ -230,7 +230,12 @@ class c14_load_rec:
 
     def main(self, path: IdentifierType) -> Union[C14Rec, SerialisableType]:
         text = path.read() if hasattr(path, "read") else open(str(path)).read()
-        key, source = text.strip().split("|")
+        key, source, *rest = text.strip().split("|")
         if key.startswith("!"):
             raise IOError(f"unreadable:{key[1:]}")
-        return C14Rec(key=key, trace=[], source=source, falsy=False)
+        rec = C14Rec(key=key, trace=[], source=source, falsy=False)
+        odd = rest[0] if rest else ""
+        if odd:
+            # an "info" entry that does not lead to a source
+            rec["info"] = {"none": None, "str": "about this record", "list": [1, 2], "empty": {}}[odd]
+        return rec
